@@ -1243,7 +1243,7 @@ def _run_big(case, ctx, cfg, env, inst, td0, policy, tag, slice_):
 
 
 SUBS = [
-    Sub("beam_search", execute, strategy=lambda tier: cases(tier), budget={"quick": 480, "thorough": 6000}, shards=16,
+    Sub("beam_search", execute, strategy=lambda tier: cases(tier), budget={"quick": 1440, "thorough": 6000}, shards=16,
         shrink=False, minimize=minimize),
 ] + [
     # one sub-check per index-range regime, one shard each: Hypothesis' first example of a run is always the strategy's
